@@ -380,7 +380,8 @@ theorem elongation_char (o : Ops ℝ) (i : In ℝ) (hsqrt : ∀ x, o.sqrt x = Re
           * (i.X1s * i.X1s + i.X1c * i.X1c + Y1s o i * Y1s o i + Y1c o i * Y1c o i)
         - 4 * (i.X1s * Y1c o i - i.X1c * Y1s o i) * (i.X1s * Y1c o i - i.X1c * Y1s o i)))
       / (2 * |i.X1s * Y1c o i - i.X1c * Y1s o i|)) := by
-    simp only [elongation, p, q, hsqrt, habs, Nat.cast_ofNat]
+    simp only [elongation, qsc_local, hsqrt, habs, Nat.cast_ofNat] <;>
+      first | rfl | ring_congr | (simp only [abs_mul, abs_two]; ring_congr)
   rw [e]
   exact h
 
